@@ -1,9 +1,15 @@
 package main
 
-// Stage (a): the real carddav.Client with a capturing webdav.HTTPClient.
+// Stage (a): the real carddav.Client with a capturing webdav.HTTPClient.  A case is one
+// call, or a sequence of calls on ONE client: the same request value passed again with
+// other arguments ("same"), or values that share slices and pointers with the first
+// ("shared").  Every call is judged by the model on its own inputs; the values the
+// caller passed are compared with what they were (also the spare capacity of their
+// slices), and the results of earlier calls are compared again at the end.
 
 import (
 	"context"
+	"encoding/json"
 	"io"
 	"net/http"
 	"net/url"
@@ -20,6 +26,10 @@ type capture struct {
 	sent   bool
 }
 
+const cannedAnswer = `<?xml version="1.0" encoding="UTF-8"?><multistatus xmlns="DAV:"><response><href>/ab/book/a.vcf</href>` +
+	`<propstat><prop><getetag>"e1"</getetag><address-data xmlns="urn:ietf:params:xml:ns:carddav">BEGIN:VCARD&#13;&#10;VERSION:4.0&#13;&#10;FN:A&#13;&#10;END:VCARD&#13;&#10;</address-data></prop>` +
+	`<status>HTTP/1.1 200 OK</status></propstat></response></multistatus>`
+
 func (c *capture) Do(req *http.Request) (*http.Response, error) {
 	c.sent = true
 	c.method = req.Method
@@ -29,7 +39,7 @@ func (c *capture) Do(req *http.Request) (*http.Response, error) {
 	return &http.Response{
 		StatusCode: 207,
 		Header:     http.Header{"Content-Type": {"text/xml; charset=\"utf-8\""}},
-		Body:       io.NopCloser(strings.NewReader(`<?xml version="1.0" encoding="UTF-8"?><multistatus xmlns="DAV:"></multistatus>`)),
+		Body:       io.NopCloser(strings.NewReader(cannedAnswer)),
 	}, nil
 }
 
@@ -51,42 +61,259 @@ func usTable(ci *clientInput) string {
 	return hx.L(items...)
 }
 
-func observeClient(ci *clientInput) (obs string) {
+const sentinel = "\x00verif-sentinel"
+
+// withSpare re-allocates every slice of the value with two spare elements of capacity
+// holding a sentinel, so that an append by the callee into the caller's array shows.
+func spareStrings(l []string) []string {
+	if l == nil {
+		return nil
+	}
+	n := make([]string, len(l), len(l)+2)
+	copy(n, l)
+	n = append(n, sentinel, sentinel)
+	return n[:len(l)]
+}
+
+func spareOK(l []string) bool {
+	if l == nil {
+		return true
+	}
+	f := l[:cap(l)]
+	return len(f) >= len(l)+2 && f[len(l)] == sentinel && f[len(l)+1] == sentinel
+}
+
+func sparePFs(l []carddav.PropFilter) []carddav.PropFilter {
+	if l == nil {
+		return nil
+	}
+	n := make([]carddav.PropFilter, len(l), len(l)+2)
+	copy(n, l)
+	n = append(n, carddav.PropFilter{Name: sentinel}, carddav.PropFilter{Name: sentinel})
+	return n[:len(l)]
+}
+
+func sparePFsOK(l []carddav.PropFilter) bool {
+	if l == nil {
+		return true
+	}
+	f := l[:cap(l)]
+	return len(f) >= len(l)+2 && f[len(l)].Name == sentinel && f[len(l)+1].Name == sentinel
+}
+
+// callValue is what is handed to the client for one call.
+type callValue struct {
+	in *clientInput // the input as the model is told (a snapshot, never handed to the client)
+	q  *carddav.AddressBookQuery
+	mg *carddav.AddressBookMultiGet
+	// slices that alias another value's array have no spare capacity of their own
+	aliasMain, aliasProps bool
+}
+
+func (v *callValue) now() string {
+	if v.mg != nil {
+		c := clientInput{multiget: true, path: v.in.path, mg: *v.mg}
+		return c.sx()
+	}
+	return querySx(v.q)
+}
+
+func (v *callValue) spareIntact() bool {
+	if v.mg != nil {
+		return (v.aliasMain || spareOK(v.mg.Paths)) && (v.aliasProps || spareOK(v.mg.DataRequest.Props))
+	}
+	return (v.aliasMain || sparePFsOK(v.q.PropFilters)) && (v.aliasProps || spareOK(v.q.DataRequest.Props))
+}
+
+func buildValue(ci *clientInput) *callValue {
+	// a deep, independent copy through the S-expression
+	c := parseClientInput(hx.MustParse(ci.sx())[0])
+	v := &callValue{in: c}
+	f := parseClientInput(hx.MustParse(ci.sx())[0])
+	if f.multiget {
+		f.mg.Paths = spareStrings(f.mg.Paths)
+		f.mg.DataRequest.Props = spareStrings(f.mg.DataRequest.Props)
+		v.mg = &f.mg
+	} else {
+		f.query.PropFilters = sparePFs(f.query.PropFilters)
+		f.query.DataRequest.Props = spareStrings(f.query.DataRequest.Props)
+		v.q = &f.query
+	}
+	return v
+}
+
+func isPrefixSx(a, b []string) bool {
+	if len(a) > len(b) {
+		return false
+	}
+	for i := range a {
+		if a[i] != b[i] {
+			return false
+		}
+	}
+	return true
+}
+
+func pfSxs(q *carddav.AddressBookQuery) []string {
+	var l []string
+	for i := range q.PropFilters {
+		one := carddav.AddressBookQuery{PropFilters: q.PropFilters[i : i+1]}
+		l = append(l, querySx(&one))
+	}
+	return l
+}
+
+// buildValues: mode "same" hands the one value of step 0 to every call (the steps differ
+// in the path argument only); mode "shared" lets later values alias the slices (and with
+// them the TextMatch pointers) of the first wherever theirs are a prefix of its.
+func buildValues(steps []*clientInput, mode string) []*callValue {
+	vals := make([]*callValue, len(steps))
+	for i, s := range steps {
+		switch {
+		case i == 0 || mode == "":
+			vals[i] = buildValue(s)
+		case mode == "same":
+			c := parseClientInput(hx.MustParse(s.sx())[0])
+			vals[i] = &callValue{in: c, q: vals[0].q, mg: vals[0].mg, aliasMain: true, aliasProps: true}
+		default: // shared
+			v := buildValue(s)
+			b := vals[0]
+			if v.q != nil && b.q != nil {
+				if n := len(v.q.PropFilters); n > 0 && isPrefixSx(pfSxs(v.q), pfSxs(b.q)) {
+					v.q.PropFilters, v.aliasMain = b.q.PropFilters[:n], true
+				}
+				if n := len(v.q.DataRequest.Props); n > 0 && isPrefixSx(v.q.DataRequest.Props, b.q.DataRequest.Props) {
+					v.q.DataRequest.Props, v.aliasProps = b.q.DataRequest.Props[:n], true
+				}
+			}
+			if v.mg != nil && b.mg != nil {
+				if n := len(v.mg.Paths); n > 0 && isPrefixSx(v.mg.Paths, b.mg.Paths) {
+					v.mg.Paths, v.aliasMain = b.mg.Paths[:n], true
+				}
+				if n := len(v.mg.DataRequest.Props); n > 0 && isPrefixSx(v.mg.DataRequest.Props, b.mg.DataRequest.Props) {
+					v.mg.DataRequest.Props, v.aliasProps = b.mg.DataRequest.Props[:n], true
+				}
+			}
+			if v.mg != nil && b.q != nil {
+				if n := len(v.mg.DataRequest.Props); n > 0 && isPrefixSx(v.mg.DataRequest.Props, b.q.DataRequest.Props) {
+					v.mg.DataRequest.Props, v.aliasProps = b.q.DataRequest.Props[:n], true
+				}
+			}
+			vals[i] = v
+		}
+	}
+	return vals
+}
+
+var bookPaths = []string{"/ab/book/", "/ab/other/", "/ab/b k/"}
+
+// oneCall makes call number k with value v on the client and returns the observation.
+func oneCall(cl *carddav.Client, capt *capture, v *callValue, k int) (obs string, res []carddav.AddressObject, ok bool) {
 	defer func() {
 		if r := recover(); r != nil {
-			obs = "(bad panic)"
+			obs, ok = "(bad panic)", false
 		}
 	}()
-	capt := &capture{}
-	cl, err := carddav.NewClient(capt, "http://verif.invalid/")
-	if err != nil {
-		return "(bad newclient)"
-	}
-	if ci.multiget {
-		mg := ci.mg
-		_, err = cl.MultiGetAddressBook(context.Background(), ci.path, &mg)
+	*capt = capture{}
+	var err error
+	if v.mg != nil {
+		res, err = cl.MultiGetAddressBook(context.Background(), v.in.path, v.mg)
 	} else {
-		q := ci.query
-		_, err = cl.QueryAddressBook(context.Background(), "/ab/book/", &q)
+		res, err = cl.QueryAddressBook(context.Background(), bookPaths[k%len(bookPaths)], v.q)
 	}
 	if !capt.sent {
 		if err != nil {
-			return "(err)"
+			return "(err)", nil, false
 		}
-		return "(bad nothing-sent)"
+		return "(bad nothing-sent)", nil, false
 	}
 	if capt.method != "REPORT" {
-		return "(bad method)"
+		return "(bad method)", nil, false
 	}
 	root, perr := parseTree(capt.body)
 	if perr != nil {
-		return "(bad unparsable-body)"
+		return "(bad unparsable-body)", nil, false
 	}
-	return hx.L("body", root.sx())
+	return hx.L("body", root.sx()), res, err == nil
 }
 
-func execClient(inSx hx.Sx) string {
-	ci := parseClientInput(inSx)
-	in := hx.L("client", usTable(ci), ci.sx())
-	return in + " " + observeClient(ci)
+func resultsJSON(res []carddav.AddressObject) string {
+	js, err := json.Marshal(res)
+	if err != nil {
+		return "unmarshalable: " + err.Error()
+	}
+	return string(js)
+}
+
+// execClientSeq: one line per call; the line of call k names calls 0..k-1 as its history.
+func execClientSeq(steps []*clientInput, mode string) (lines []string) {
+	vals := buildValues(steps, mode)
+	lines = make([]string, len(steps))
+	capt := &capture{}
+	var cl *carddav.Client
+	func() {
+		defer func() { recover() }()
+		cl, _ = carddav.NewClient(capt, "http://verif.invalid/")
+	}()
+	hist := []string{"after", mode}
+	obs := make([]string, len(steps))
+	var keptRes [][]carddav.AddressObject // results of earlier calls, scribbled over
+	var keptJS []string                   // ... and what they looked like then
+	var keptAt []int
+	first := ""
+	for k, v := range vals {
+		in := []string{"client", usTable(v.in), v.in.sx()}
+		if k > 0 {
+			in = append(in, hx.L(hist...))
+		}
+		hist = append(hist, v.in.sx())
+		lines[k] = hx.L(in...)
+		if cl == nil {
+			obs[k] = "(bad newclient)"
+			continue
+		}
+		var res []carddav.AddressObject
+		var ok bool
+		obs[k], res, ok = oneCall(cl, capt, v, k)
+		// the caller's value is what it was
+		if v.now() != v.in.sx() || !v.spareIntact() {
+			obs[k] = "(bad modified-its-argument)"
+		}
+		if ok {
+			// the same answer decodes to the same result, whatever earlier results became
+			js := resultsJSON(res)
+			if first == "" {
+				first = js
+			} else if js != first {
+				obs[k] = "(bad result-depends-on-earlier-calls)"
+			}
+			for i := range res {
+				res[i].Path = "/scribbled"
+				res[i].ETag = "scribbled"
+				for _, fs := range res[i].Card {
+					for _, f := range fs {
+						if f != nil {
+							f.Value = "scribbled"
+						}
+					}
+				}
+			}
+			keptRes, keptJS, keptAt = append(keptRes, res), append(keptJS, resultsJSON(res)), append(keptAt, k)
+		}
+	}
+	// once more, now that all calls are over: nothing handed in or out earlier has changed since
+	for k, v := range vals {
+		if cl != nil && !strings.HasPrefix(obs[k], "(bad") && (v.now() != v.in.sx() || !v.spareIntact()) {
+			obs[k] = "(bad argument-changed-by-a-later-call)"
+		}
+	}
+	for i, r := range keptRes {
+		if k := keptAt[i]; !strings.HasPrefix(obs[k], "(bad") && resultsJSON(r) != keptJS[i] {
+			obs[k] = "(bad result-changed-by-a-later-call)"
+		}
+	}
+	for k := range lines {
+		lines[k] += " " + obs[k]
+	}
+	return lines
 }
